@@ -120,17 +120,27 @@ def _build_bv(tu, unit, workdir, contract_override=None):
         # helper functions that may or may not exist in the working tree (included with their real bodies when they do)
         bodies += [q for q, f_ in sorted(tu.by_qname.items()) if q.startswith(pref) and f_.body is not None and q not in bodies]
     callee_contracts = {q: contracts[q] for q in unit.replace}
-    src, em = cxx2c.build_unit(tu, workdir, bodies, contracts=callee_contracts, loop_contracts=unit.loop_contracts,
-                               spec_prelude=bvspec.prelude() + unit.spec_prelude, ghost=unit.ghost, stubs=getattr(unit, "stubs", None), defines=getattr(unit, "defines_text", ""))
+    auto = []
+    for _round in range(6):
+        src, em = cxx2c.build_unit(tu, workdir, bodies, contracts=callee_contracts, loop_contracts=unit.loop_contracts,
+                                   spec_prelude=bvspec.prelude() + unit.spec_prelude, ghost=unit.ghost, stubs=getattr(unit, "stubs", None), defines=getattr(unit, "defines_text", ""))
+        # every function that is called but neither inlined nor replaced: a free helper function with a body (a refactoring that split the
+        # target, say) is inlined with its real body and the extraction is repeated; anything else is an extraction error
+        have = {tu.func(q).cname for q in bodies}
+        repl = {tu.func(q).cname: q for q in unit.replace}
+        stubbed = {tu.func(q).cname for q in getattr(unit, "stubs", {}) or {}}
+        missing = [cf_ for cname, cf_ in em.need_funcs.items() if cname not in have and cname not in repl and cname not in stubbed]
+        if not missing:
+            break
+        new = [cf_ for cf_ in missing if cf_.record is None and cf_.body is not None and not cf_.qname.startswith("embedded_pairing_")]
+        if len(new) != len(missing) or _round == 5:
+            cf_ = [x for x in missing if x not in new][0] if len(new) != len(missing) else missing[0]
+            raise ExtractionError("%s calls %s which is neither inlined nor under a contract in unit %s" % (unit.target, cf_.qname, unit.label))
+        bodies += [cf_.qname for cf_ in new]
+        auto += [cf_.qname for cf_ in new]
+    unit.auto_inlined = auto
     wname, wtext = witness_wrapper(em, f, tgt_contract, getattr(unit, "harness_pre", ""))
     src += "\n/* ---- contract carrier + harness (generated) ---- */\n" + wtext
-    # every function that is called but neither inlined nor replaced is an extraction error
-    have = {tu.func(q).cname for q in bodies}
-    repl = {tu.func(q).cname: q for q in unit.replace}
-    stubbed = {tu.func(q).cname for q in getattr(unit, "stubs", {}) or {}}
-    for cname, cf_ in em.need_funcs.items():
-        if cname not in have and cname not in repl and cname not in stubbed:
-            raise ExtractionError("%s calls %s which is neither inlined nor under a contract in unit %s" % (unit.target, cf_.qname, unit.label))
     cfile = os.path.join(workdir, unit.name() + ".c")
     with open(cfile, "w") as fh:
         fh.write(src)
